@@ -2,6 +2,7 @@ package checks
 
 import (
 	"fmt"
+	"math"
 	"os"
 	"regexp"
 	"sort"
@@ -394,6 +395,16 @@ func c13Batch(c *core.Ctx, cases []c13Case, routes []string, seedOf func(i int, 
 				}
 				continue
 			}
+			if valHasBigUint(cs.input) {
+				// outside the model's domain (its integers are unbounded): judged by the oracle alone - no Int slot holds an
+				// unsigned value above MaxInt64 (the mutator puts it in Int slots only), so both engines refuse the input, by
+				// whichever route it arrives
+				c.Dist("int-above-int64:" + firstWord(rt.gen) + "/" + firstWord(rt.bind))
+				if strings.HasPrefix(rt.gen, "accepted") || strings.HasPrefix(rt.bind, "accepted") {
+					report("C13/int-above-int64-accepted", rp("oracle", "rejected by both engines", "an unsigned integer above MaxInt64 in an Int slot"))
+				}
+				continue
+			}
 			genCorr, bindCorr := mg.corresponds(rt.gen), mb.corresponds(rt.bind)
 			// (O) the engines agree
 			if c13Class(rt.gen) != c13Class(rt.bind) {
@@ -629,7 +640,7 @@ func runC13(c *core.Ctx) error {
 		"the Go compiler and linker are trusted (the generated packages are compiled by the installed toolchain)",
 		"the generator is run in this process, linked from the library working tree (/repo/schema/gen/go); nothing checked in is used: go/gen13/ is deleted and regenerated on every run",
 		"outside gengo's feature set and therefore excluded (core.GenSupported, with the generator lines that impose each): any, enum (generate.go:45-86 has no generator), listpairs structs (generate.go:58-68), stringjoin fields / stringprefix members that are not string, stringjoin struct or stringprefix union (only those emit fromString: genStructReprStringjoin.go:160, genUnionReprStringprefix.go:164), optional or nullable stringjoin fields (genStructReprStringjoin.go:73), kinded-union members without a single representation kind (genUnionReprKinded.go:467-540), map keys other than the plain String type, field names that are not Go identifiers (adjunctCfg.go:61-73), recursive types (the schema generator draws trees)",
-		"ints within int64, finite non-integral floats, UTF-8 strings, no map key \"/\" (as C08/C09)",
+		"ints within int64 (plus, as a mutation judged by the oracle alone, an unsigned value above MaxInt64 in an Int slot: both engines refuse), finite non-integral floats, UTF-8 strings, no map key \"/\" (as C08/C09)",
 		"observational equivalence is taken over the Node / NodeAssembler / NodePrototype interfaces and the two codecs; error TEXTS and native Go accessors of generated types are not compared",
 		"route direct-rand (random mixture of assembler calls) is compared only on inputs for which the model gives one answer under the three pure plans; the others (distribution `direct-rand:plan-sensitive-…`) are decided by the routes direct, keys and node",
 		"route node is not used for inputs with a repeated map key (no node can hold them); the dag-cbor route refuses them in the decoder (C03), there only the agreement of the engines is checked",
@@ -641,6 +652,7 @@ func runC13(c *core.Ctx) error {
 	defer unlock()
 	defer core.GenCleanup()
 	cfg := core.GenSchemaCfg
+	cfg.IntAboveInt64 = true
 	failCounted := func(sig string, rp core.Replay) {
 		c.Dist("failing:" + sig)
 		if os.Getenv("VERIF_C13_DEBUG") != "" {
@@ -1479,4 +1491,31 @@ func replayC13(c *core.Ctx, rp core.Replay) error {
 		cs.mut = "replay" // the canonical value is not part of the case line; the engines are compared with each other and the model
 	}
 	return c13Batch(c, []c13Case{cs}, []string{route}, func(int, string) uint64 { return seed }, c.Fail, false)
+}
+
+func firstWord(s string) string {
+	if i := strings.IndexByte(s, ' '); i >= 0 {
+		return s[:i]
+	}
+	return s
+}
+
+func valHasBigUint(v core.Val) bool {
+	switch v.K {
+	case 'i':
+		return !v.Neg && v.Mag > math.MaxInt64
+	case '[':
+		for _, x := range v.L {
+			if valHasBigUint(x) {
+				return true
+			}
+		}
+	case '{':
+		for _, e := range v.M {
+			if valHasBigUint(e.V) {
+				return true
+			}
+		}
+	}
+	return false
 }
